@@ -23,6 +23,7 @@ DOC = {
         'C09.R15': 'with -L a directory is walked once, so the ignore rules applied below it must not depend on the route: the ignore stack handed to a link target is a function of the target, not of the directory that holds the link (visit_link must not pass its own stack on) - or a visit is recorded per (path, ignore stack), so that every route applies its own rules and none suppresses another, with IgnoreStack::push idempotent so that a cycle of links cannot grow the stack for ever',
         'C09.R14': 'the directory admission test (PathSelector::matches_dir: "could something below match?") is applied to directories only: its callers are visit_dir alone - applied to an input path or a link target that is a file it asks whether `file/...` is excluded and drops files that no pattern excludes',
         'C09.R13': 'ignore files as documented: IgnoreStack::push loads .gitignore and .fdignore of a directory independently of each other (neither is looked at only when the other is absent); IgnoreStack::matches lets the deepest ignore file that says anything decide (reverse iteration, a whitelist `!` match ends the search with "not ignored"), instead of "ignored by any level"',
+        'C09.R18': 'the size limits mean what the user wrote: FileLen::from_str does not narrow the parsed number (u128) to u64 with a wrapping cast - a value that does not fit is refused',
         'C09.R17': 'sibling agreement of the three ways a user names a directory: input paths (Walk::absolute), isolate roots (canonical_root) and the literal directory at the beginning of a --path / --exclude / --keep-path pattern are all resolved to the canonical form the scanned paths have; abs_pattern canonicalizes the directory split off the pattern and keeps the spelled form as an alternative',
         'C09.R16': 'every input path is walked on its own at level 0: in the loop of Walk::run the only decisions that skip the spawn of visit_path are the stat failure and the directory-with-depth-0 case, each with a warning; no input path is left out because of another one',
         'C09.R12': 'input paths read from the standard input (--stdin) are taken as bytes, like paths given as arguments (OsString): no UTF-8-only reader (lines / read_line / read_to_string / String::from_utf8 + unwrap) between stdin and Path; an empty line is not a path (it would mean the working directory), an empty argument is rejected, and a line with a NUL byte is filtered out before Path::from (which unwraps CString::new) sees it',
@@ -59,6 +60,7 @@ def run(ctx):
     r16(ctx)
     r17(ctx)
     r17b(ctx)
+    r18(ctx)
     r13(ctx)
     r14(ctx)
     r15(ctx)
@@ -234,6 +236,14 @@ def r15(ctx):
                   'a visit is recorded per (path, ignore stack) and visit_link hands its whole stack on to the target: where directories that contain ignore files link to each other, every route '
                   'makes a different stack (the ordered list of the ignore-file directories passed so far), so a directory is read once per ordered subset of the others - 8 directories with 56 links '
                   'do not finish in 9 minutes (0.02 s with --no-ignore), a dependency graph of n packages takes 2^n visits, and every file is handed to the consumer once per visit')
+        # ... where "holds already" is asked of the COLLECTED ignore files only: the global rules are rooted at `/` (GitignoreBuilder::new("/")) without being
+        # the ignore files of `/`
+        if pu is not None and idem:
+            mem = pu.calls(r'Iterator::any$|Iterator>::any$|::contains$|Iterator::find$|Iterator::position$')
+            scoped = any(('global' in backslice(pu, [c.args[0]]).field_names()) or backslice(pu, [c.args[0]]).has_call(r'Index<.*>>::index$|Iterator::skip$|::split_at$') for c in mem)
+            ctx.check(scoped, rule, 'walk::IgnoreStack::push|global-rules-are-not-the-ignore-files-of-root', mem[0].where(), 'the "already on the stack" test looks at the collected ignore files, not at the global rules',
+                      'push() takes a directory for "already on the stack" when any rule set of the stack has its path - the global rules (core.excludesFile, ~/.config/git/ignore) are built with '
+                      'GitignoreBuilder::new("/"), so with a global ignore file present /.gitignore and /.fdignore are never loaded: `fclones group /` reports what /.gitignore ignores')
         ctx.check(idem, rule, 'walk::IgnoreStack::push|idempotent', (pu.where() if pu else vl.where()), 'push() leaves the stack unchanged when it already holds the ignore files of the directory',
                   'the visited record is keyed by the ignore stack, but push() appends the ignore files of a directory every time it is entered: on a cycle of links (`d/self -> .`) each round makes a new, '
                   'longer stack, no visit is ever recognised as a repetition, and the walk does not end')
@@ -618,6 +628,35 @@ def r11b(ctx):
               'a directory is marked as visited in visit_dir, after the --one-fs / selector / depth tests (visit_entry marks only non-directories)',
               'a directory is marked as visited before visit_dir decides whether this route may read it: a route that prunes it (--one-fs: other device than its root; selector; depth) still consumes the visit, '
               'and the route that would read it is dropped - `group -L --one-fs /dev/shm /dev` finds nothing in /dev/shm with one thread and everything with four')
+    # the same holds for a symbolic link: whether it is followed (or reported) depends on the input path that led to it - the device of that root, with
+    # --one-fs.  It is marked in visit_link, after that decision; visit_entry marks regular files only
+    vl = lib.body(W + 'visit_link')
+    if vl is not None:
+        marks_l = [c for c, kb, k in visited_sites(lib, vl)]
+        sfl = vl.calls(r"Walk::<'a>::same_fs$")
+        after = bool(marks_l) and bool(sfl) and all(any(c.bb in vl.reachable(x.bb) and x.bb not in vl.reachable(c.bb) for x in sfl) for c in marks_l)
+        only_files = True
+        for c in marks_e:
+            types = None
+            for d in ve.dominators()[c.bb]:
+                t = ve.blocks[d]['term']
+                if t['k'] != 'switch':
+                    continue
+                for k_ in backslice(ve, [t['op']]).calls:
+                    if k_.matches(r'PartialEq.*>::(eq|ne)$|PartialEq::(eq|ne)$'):
+                        for a in k_.args:
+                            for v in slice_const_values(lib, backslice(ve, [a])):
+                                m = re.search(r'EntryType::(\w+)$', v or '')
+                                if m:
+                                    types = ({m.group(1)} if k_.path.endswith('eq') else {'File', 'Dir', 'SymLink', 'Other'} - {m.group(1)})
+            if types is None or 'SymLink' in types:
+                only_files = False
+        ctx.check(after and only_files, rule, vl.path + '|link-marked-when-followed', (marks_l[0].where() if marks_l else (marks_e[0].where() if marks_e else vl.where())),
+                  'a symbolic link is marked as visited in visit_link, after the --one-fs test of the route',
+                  'visit_entry marks a symbolic link as visited before visit_link applies the one-fs test with the device of the input path that led here: reached first from a root on another file system '
+                  'the link is marked and then rejected, and the root that would accept it finds it "already visited" - `group -L --one-fs A B` reports nothing where `group -L --one-fs A` and '
+                  '`group -L --one-fs B A` report other/f1 and other/f2')
+
     if mk is not None:
         bodies = [mk] + [lib.body(x) for x in lib.closures_of(mk.path)]
         reads_depth = False
@@ -1228,6 +1267,15 @@ def r5(ctx):
                       'a pattern that is a choice between alternatives is split, every alternative is anchored on its own, and the results are or-ed',
                       'a pattern that is an alternation is classified as absolute or relative by its FIRST alternative and anchored (or not) as a whole: `--path "{**/*.jpg,raw/*}"` selects only the '
                       'jpg files (`raw/*` can never match) while `{raw/*,**/*.jpg}` selects both kinds; `--exclude "{**/*.jpg,cache/**}"` does not exclude cache/** - the files end up in the report')
+        # ... unless taking the pattern apart would change what an alternative means: an inline flag `(?i)` applies to everything after it, across the `|`
+        alt = lib.body('pattern::Pattern::alternatives')
+        if alt is not None:
+            consts = [v for p_, x in lib.bodies.items() if p_.startswith('pattern::Pattern::alternatives') or '<pattern::Pattern::alternatives::' in p_ for v in _all_consts(x)]
+            # (a search for `(?` followed by flag letters and `)`: a regex source like `\(\?[a-zA-Z-]+\)`, or the literals "(?i)" / "(?x)" ..)
+            knows_flags = any(re.search(r'\(\\*\?\[[^\]]*\][+*]?\\*\)|\(\?[a-zA-Z-]+\)', str(v)) for v in consts) and 'None' in return_variants_from(alt, 0)
+            ctx.check(knows_flags, rule, alt.path + '|inline-flags-keep-their-scope', alt.where(), 'a pattern with an inline flag group is not taken apart',
+                      'the pattern text is cut at the top-level `|` and every piece compiled on its own, but an inline flag such as `(?i)` applies up to the end of its group, across the `|`: after the '
+                      'cut it stays in the first piece only - `--regex --exclude "(?i).*\\.jpg|.*\\.png"` keeps p.PNG, `--path "(?i)photos/.*|docs/.*"` drops Docs/*, while the same pattern works with --name')
         if lit:
             # the literal is made of exactly the text the paths are matched as (to_string_lossy): no character substitution on the way
             lsl = backslice(ap, [lit[0].args[0]])
@@ -1348,6 +1396,16 @@ def r67(ctx):
                       'the arm that reports a link to a file itself (-S) does not ask same_fs, the arm that follows links does: `group -S --one-fs d` matches d/a with d/l -> /dev/shm/b, i.e. with data '
                       'stored on another file system, while `group -L --one-fs d` does not follow that link')
     necessary(vp[0], lambda a: A(a)['follow_links'] and ((not A(a)['one_fs']) or A(a)['same_fs']), 'following the link (visit_path)', b.path + '|follow-needs-follow_links')
+    # pruning by an exclude pattern must not change the result: a directory fully covered by `x/**` is not read, so the links in it are never seen - a link
+    # whose own path is excluded is then not followed either, whatever form the pattern has (`x/*`, a regex, an alternation cannot be used for pruning)
+    side = guard_side(b, vp[0].bb, r'PathSelector::(is_excluded|matches_full_path)$')
+    ex_calls = b.calls(r'PathSelector::(is_excluded|matches_full_path)$')
+    on_link = any(2 in backslice(b, [a]).params and rl[0] not in backslice(b, [a]).calls for c in ex_calls for a in c.args[1:])
+    ctx.check(bool(ex_calls) and on_link and ((side is False and ex_calls[0].path.endswith('is_excluded')) or (side is True and ex_calls[0].path.endswith('matches_full_path'))), rule,
+              b.path + '|excluded-link-not-followed', (ex_calls[0].where() if ex_calls else vp[0].where()), 'a link whose own path matches an exclude pattern is not followed',
+              'visit_link never consults the exclude patterns: with -L a link in a directory that an exclude pattern ending in `**` covers is not followed (the directory is pruned), but the same link is '
+              'followed when the pattern cannot be used for pruning - `--exclude "$PWD/scan/skip/**"` reports scan/keep/k only, `--exclude "{$PWD/scan/skip/**,/nonexistent}"` and `--regex --exclude '
+              '"$PWD/scan/skip/.+"` (the same set of paths) report store/f1 and store/f2 as well')
     # the followed path is the resolved target, the reported path is the link itself; level is passed on unchanged (C09.R1)
     tsl = backslice(b, [vp[0].args[1]])
     ctx.check(rl[0] in tsl.calls, rule, b.path + '|follows-target', vp[0].where(), 'the followed path is the resolved target', 'the followed path is not the resolved target')
@@ -1355,3 +1413,22 @@ def r67(ctx):
     ctx.check(2 in lsl.params and rl[0] not in lsl.calls, rule, b.path + '|reports-link', vf[0].where(), 'the reported path is the link itself', 'the reported path is not the link')
     # same_fs is asked about the target
     ctx.check(all(rl[0] in backslice(b, [c.args[1]]).calls for c in sf), rule, b.path + '|same_fs-target', sf[0].where(), 'one_fs is decided on the link target', 'one_fs is not decided on the link target')
+
+
+def r18(ctx):
+    rule = 'C09.R18'
+    lib = ctx.lib
+    b = None
+    for p_, x in lib.bodies.items():
+        if re.search(r'^<file::FileLen as std::str::FromStr>::from_str$', p_):
+            b = x
+    if b is None:
+        ctx.missing(rule, '<FileLen as FromStr>::from_str')
+        return
+    bodies = [b] + [lib.body(cp) for cp in lib.closures_of(b.path)]
+    narrowing = [(x, st) for x in bodies for blk in x.blocks for st in blk['stmts'] if st['rv']['k'] == 'cast' and st['rv'].get('ty') == 'u64' and
+                 'u128' in (x.local_ty(op_local(st['rv']['op'])) if op_local(st['rv'].get('op') or {}) is not None else '')]
+    checked = [c for x in bodies for c in x.calls(r'TryFrom<.*::try_from$|TryInto<.*::try_into$|::checked_|::saturating_')]
+    ctx.check(not narrowing and bool(checked), rule, b.path + '|size-limit-not-wrapped', (b.where(narrowing[0][1]['line']) if narrowing else b.where()), 'the parsed size is converted to u64 with a checked conversion',
+              'the size given with --min / --max is parsed into a u128 and narrowed with `as u64`, i.e. modulo 2^64: `--max 16EiB` (and `--max 18446744073709551615`, which the parser rounds up) becomes 0 and '
+              'selects nothing, `-s 16EiB` becomes 0 and selects everything - even the default minimum of 1 byte is gone - silently, with exit code 0')
